@@ -2,9 +2,10 @@ import Tahoe.Base.DrvUtil
 import Tahoe.Spans.RegModel
 /-! Driver for C37.
     `spans op op …` where op ∈ a:S:L (add) r:S:L (remove) c:S:L (contains) l (len)
-    i:S+L,S+L,… (self := self & other)  u:… (self := self + other)  m:… (self := self - other)  d (dump).
+    i:S+L,S+L,… (self := self & other)  u:… (self := self + other)  m:… (self := self - other)  d (dump)
+    e (each(): all members in iteration order)  b (bool).
     `dspans op op …` where op ∈ a:OFF:HEX (add) r:S:L (remove) g:S:L (get) p:S:L (pop) l (len)
-    s (get_spans) d (dump); a chunk list prints as OFF=HEX,OFF=HEX,… (`-` if empty), `None` as N.
+    s (get_spans) d (dump) e (_dump(): all held offsets in iteration order) b (bool); a chunk list prints as OFF=HEX,OFF=HEX,… (`-` if empty), `None` as N.
     `strace op …` / `dtrace op …`: the same op syntax (a r i u m c / a r g p); output = only the answers of
     the queries (c / g, p) in order, computed by the model's `strace` / `dtrace`; `none` if there are none.
     `reg op op …`: named values r0..r3 (Spans) and d0..d1 (DataSpans), all empty at the start; op ∈
@@ -27,12 +28,19 @@ def parseSpans (t : String) : Option (List Span) :=
 def stepOp (s : List Span) (op : String) : Option (List Span × String) :=
   match op.splitOn ":" with
   | ["a", a, l] => do let s' := (sstepQ s (.op (.add (← a.toNat?) (← l.toNat?)))).1; pure (s', showSpans s')
-  | ["r", a, l] => do let s' := (sstepQ s (.op (.remove (← a.toNat?) (← l.toNat?)))).1; pure (s', showSpans s')
+  | ["r", a, l] => do
+      -- the method as written (`removeLit`); flagged if it ever differs from the span-by-span `remove` of the theorems
+      let a ← a.toNat?; let l ← l.toNat?
+      let s' := removeLit s a l
+      let s2 := (sstepQ s (.op (.remove a l))).1
+      pure (s', showSpans s' ++ (if s' == s2 then "" else "!flatMap=" ++ showSpans s2))
   | ["c", a, l] => do
       match (sstepQ s (.contains (← a.toNat?) (← l.toNat?))).2 with
       | some b => pure (s, if b then "T" else "F")
       | none => none
   | ["l"] => some (s, toString (len s))
+  | ["e"] => some (s, if (each s).isEmpty then "-" else showNatList (each s))
+  | ["b"] => some (s, if spBool s then "T" else "F")
   | ["d"] => some (s, showSpans s)
   | ["i", o] => do let s' := (sstepQ s (.op (.inter (← parseSpans o)))).1; pure (s', showSpans s')
   | ["u", o] => do let s' := (sstepQ s (.op (.union (← parseSpans o)))).1; pure (s', showSpans s')
@@ -66,6 +74,8 @@ def stepDOp (s : List Chunk) (op : String) : Option (List Chunk × String) :=
       | some ans => pure (r.1, showOpt ans ++ "/" ++ showChunks r.1)
       | none => none
   | ["l"] => some (s, toString (dlen s))
+  | ["e"] => some (s, if (dDump s).isEmpty then "-" else showNatList (dDump s))
+  | ["b"] => some (s, if dBool s then "T" else "F")
   | ["s"] => some (s, showSpans (getSpans s))
   | ["d"] => some (s, showChunks s)
   | _ => none
